@@ -38,6 +38,22 @@ class Ctx:
             self.cache[key] = fn()
         return self.cache[key]
 
+    def self_env(self, clsname):
+        """class-level constants as a method of `clsname` sees them: self.NAME / cls.NAME / Class.NAME, nearest definition first"""
+        def build():
+            out = {}
+            for cn in self.repo.ancestors(clsname):
+                c = self.repo.classes.get(cn)
+                if c is None:
+                    continue
+                for name in c.assigns:
+                    k = "%s.%s" % (cn, name)
+                    if k in self.env:
+                        for pre in ("self", "cls", clsname):
+                            out.setdefault("%s.%s" % (pre, name), self.env[k])
+            return out
+        return self.memo(("self_env", clsname), build)
+
     # ---- instruction table -----------------------------------------------------------------
     def instruction_module(self):
         for m in self.repo.modules.values():
